@@ -8,7 +8,7 @@ from lib.vlib import HARNESS
 META = {
     "property_id": "C18",
     "technique": "Coq proof over a Gallina model of the build engine + history correspondence with fresh-process builds",
-    "level_text": "Theorems: per_label_shape (every build, every mode), evaluating_iff_body_runs, lines_chunking_invariant, flush_leaves_empty, second_run_repeats_nothing (lineWriter), run_done_once_last (the complete stream of a build ends with exactly one run-done carrying the requested target's result), output_inside_window (per label the stream is nothing / up-to-date / lone failed / evaluating, then iff the body ran exactly the lines of what it wrote whatever the chunking, then one completion); Output/Props_C18.v: one_channel_each_stream_in_order (producers of whole-line blocks -- a process's standard output and standard error -- through ONE channel and one copier: any interleaving, any chunking, every line once and intact, each stream in its own order), separate_copiers_refuted (a copier per stream into the one line writer tears lines), writer_per_copier_delivers_its_stream. Correspondence: per-label event sequences of every build vs the model; real lineWriter vs model on random chunkings, two rounds per writer; the four CLI renderers (line, status, JSON, DOT) driven by the event streams of ten real build scenarios (no panic, well-formed JSON stream). Oracles on the implementation: run-done once/last with Run's error, prints inside the evaluating window, evaluating iff body ran, lone failed event for missing dependencies, output of succeeding AND failing bodies (incl. an unterminated last line) delivered exactly once before the completion event; output of real processes started by os.exec / sh.exec / os.output / sh.output that write thousands of numbered lines to one stream, to both in turn, or to both at the same time (atomic whole-line blocks), with fast and slow consumers, several processes per body, failing processes, parallel targets, two processes of one shell command: every delivered line is the next line of its stream, every stream complete, inside the window; the REPL's run(label, callback=f) with callbacks that raise errors (for every non-Print event, every event, the first, every k-th, run-done only) over scripted and random projects and sequences of runs: run returns, the callback receives per label one of the three shapes, run-done once and last with the build's error, and exactly what a plain Events implementation receives for the same builds.",
+    "level_text": "Theorems: per_label_shape (every build, every mode), evaluating_iff_body_runs, lines_chunking_invariant, flush_leaves_empty, second_run_repeats_nothing (lineWriter), run_done_once_last (the complete stream of a build ends with exactly one run-done carrying the requested target's result), output_inside_window (per label the stream is nothing / up-to-date / lone failed / evaluating, then iff the body ran exactly the lines of what it wrote whatever the chunking, then one completion), callback_receives_the_stream / callback_run_done_once_last / callback_label_events (Build/Pump.v, the REPL's run(..., callback=f): whatever the callback raises it is called with the build's complete stream in order and no send stays blocked), stopping_pump_blocks_the_build, stop_at_first_error_refuted; Output/Props_C18.v: one_channel_each_stream_in_order (producers of whole-line blocks -- a process's standard output and standard error -- through ONE channel and one copier: any interleaving, any chunking, every line once and intact, each stream in its own order), separate_copiers_refuted (a copier per stream into the one line writer tears lines), writer_per_copier_delivers_its_stream. Correspondence: per-label event sequences of every build vs the model; real lineWriter vs model on random chunkings, two rounds per writer; the four CLI renderers (line, status, JSON, DOT) driven by the event streams of ten real build scenarios (no panic, well-formed JSON stream). Oracles on the implementation: run-done once/last with Run's error, prints inside the evaluating window, evaluating iff body ran, lone failed event for missing dependencies, output of succeeding AND failing bodies (incl. an unterminated last line) delivered exactly once before the completion event; output of real processes started by os.exec / sh.exec / os.output / sh.output that write thousands of numbered lines to one stream, to both in turn, or to both at the same time (atomic whole-line blocks), with fast and slow consumers, several processes per body, failing processes, parallel targets, two processes of one shell command: every delivered line is the next line of its stream, every stream complete, inside the window; the REPL's run(label, callback=f) with callbacks that raise errors (for every non-Print event, every event, the first, every k-th, run-done only) over scripted and random projects and sequences of runs: run returns, the callback receives per label one of the three shapes, run-done once and last with the build's error, and exactly what a plain Events implementation receives for the same builds; every such run is also a case for Build/Pump.v (events sent, which of them raise, events received, events never received), evaluated inside Coq.",
     "level_note": "Trusted: as C01; the stream model (Build/Stream.v) composes the engine model's events with the line-writer model and is tied to the code by the protocol oracles (not by a term-by-term comparison of print events); interleavings of parallel targets and of a process's two streams are sampled by the real runner / real processes (the model quantifies over all of them; os/exec's one-pipe-per-distinct-writer behaviour is the Go standard library's and is observed, not modelled).",
     "design_ref": "DESIGN.md §6 C18",
 }
@@ -75,16 +75,35 @@ def run_callback(ctx):
         ctx.violation("run-callback harness failed (exit %d)" % rc, {"theorem_or_correspondence": "C18 run-callback harness", "output": o[-2000:]},
                       found_input=False)
         return
-    cases, by_scen = [], {}
+    cases, by_scen, pumps = [], {}, []
     for line in open(out):
         f = line.rstrip("\n").split("\t")
         if f[0] == "ORACLE":
             by_scen.setdefault(f[3], []).append(f[2])
         elif f[0] == "case":
             cases.append((f[1], int(f[2]), json.loads(f[3])))
+        elif f[0] == "pump":
+            pumps.append((f[1], int(f[2]), int(f[3]), f[4]))
     how = "harness/overlay/root/zz_verif_c18_callback_test.go, VERIF_SEED=%d VERIF_TIER=%s (VERIF_C18_ONLY=<scenario name> plays one)" % (ctx.seed, ctx.tier)
     for scen, texts in list(by_scen.items())[:3]:
         ctx.violation("implementation violates %s" % texts[0], {"oracle": texts[:6], "scenario": json.loads(scen), "how": how})
+    # the pump model (Build/Pump.v) on every run: events sent and which of them raise -> (events the callback is called with,
+    # events never received)
+    items = ["(%d%%N, ([%s], (%d%%N, %d%%N)))" % (i, ";".join("true" if ch == "1" else "false" for ch in b), g, bl)
+             for i, (b, g, bl, _s) in enumerate(pumps)]
+    okc, res, logs = ctx.coq_eval("From Coq Require Import List NArith Bool.\nImport ListNotations.\nFrom Dawn Require Import Build.Pump.\n",
+                                  ["pump_mismatches [\n" + ";\n".join(items) + "]"]) if items else (True, [[]], [])
+    if not okc:
+        ctx.violation("pump model evaluation failed", {"theorem_or_correspondence": "Build/Pump.v evaluation", "log": logs[:1]}, found_input=False)
+    else:
+        mism = [x for r in res for x in r]
+        if mism and not by_scen:
+            b, g, bl, scen = pumps[mism[0]]
+            ctx.violation("implementation and Build/Pump.v disagree: of %d events sent (callback raises at %s) the callback was called with %d and %d "
+                          "were never received; the model delivers all of them" % (len(b), [i for i, ch in enumerate(b) if ch == "1"][:8], g, bl),
+                          {"scenario": json.loads(scen), "raises": b, "received": g, "never_received": bl, "how": how})
+        ctx.coverage["correspondence"]["run_callback_pump_cases"] = len(pumps)
+        ctx.coverage["correspondence"]["run_callback_pump_mismatches"] = len(mism)
     ctx.coverage["correspondence"]["run_callback"] = {
         "scenarios": len(cases), "runs": sum(c[2]["runs"] for c in cases), "events_delivered_to_callbacks": sum(c[2]["events"] for c in cases),
         "scenarios_by_callback_style": {str(k): sum(1 for c in cases if c[2]["style"] == k) for k in range(6)},
